@@ -25,6 +25,10 @@ pub struct Case {
     /// run the built executable (comp cgr -k K -v S [-c]) instead of the library
     #[serde(default)]
     pub via_cli: bool,
+    /// (library runs) another computer of the same k with this square size is built first and stays alive;
+    /// when the flag is set it also runs first
+    #[serde(default)]
+    pub cohabitant: Option<(u64, bool)>,
 }
 
 pub fn check_case(c0: &Case) -> Verdict {
@@ -62,12 +66,24 @@ pub fn check_case(c0: &Case) -> Verdict {
             Ok(Ok(()))
         }
     } else {
+        v.class_if(c.cohabitant.is_some(), "another-computer-alive");
         guarded(|| {
+            let other = c.cohabitant.map(|(s2, first)| {
+                let mut o = OligoCgrComputer::new(io::path_str(&input), io::path_str(&dir.path().join("other.kcgr")), c.k, s2 as usize);
+                o.set_threads(1);
+                o.set_norm(!c.norm);
+                if first {
+                    let _ = o.vectorise();
+                }
+                o
+            });
             let mut cc = OligoCgrComputer::new(io::path_str(&input), io::path_str(&out), c.k, c.s as usize);
             cc.set_threads(c.threads);
             cc.set_norm(c.norm);
             cc.verif_set_max_memory(mem);
-            cc.vectorise()
+            let r = cc.vectorise();
+            drop(other);
+            r
         })
     };
     match r {
@@ -171,7 +187,7 @@ impl Leg for Runs {
         (prop_oneof![8 => 1usize..=6, 1 => Just(7usize)], gen::square_strategy(), any::<bool>(), gen::threads_strategy(), prop::sample::select(vec![Mem::OneByte, Mem::ThreeRecords, Mem::Half, Mem::Max]))
             .prop_flat_map(move |(k, s, norm, threads, mem)| {
                 let p = RecParams { max_records: if k >= 7 { 3 } else if k >= 5 { 8 } else { tier.pick(20, 80) }, scale: k, max_len: tier.pick(150, 400), degenerate_w: 2, bounds: [k, 0, 0], nuc_only: false };
-                gen::records_in_container(p).prop_map(move |(recs, cont)| Case { recs, cont, k, s, norm, threads, mem, giant: None, via_cli: false })
+                (gen::records_in_container(p), prop_oneof![2 => Just(None), 1 => (gen::square_strategy(), any::<bool>()).prop_map(Some)]).prop_map(move |((recs, cont), cohabitant)| Case { recs, cont, k, s, norm, threads, mem, giant: None, via_cli: false, cohabitant })
             })
             .boxed()
     }
@@ -190,7 +206,7 @@ impl Leg for Cli {
             .prop_flat_map(move |(k, norm, threads)| {
                 let s = prop_oneof![3 => Just(1u64), 1 => Just(2u64), 1 => Just(3u64), 2 => Just((k * k) as u64), 1 => Just(1u64 << 20), 4 => 1u64..=(1u64 << 20), 2 => 1u64..=64];
                 let p = RecParams { max_records: if k >= 7 { 3 } else if k >= 5 { 6 } else { tier.pick(12, 40) }, scale: k, max_len: tier.pick(150, 400), degenerate_w: 2, bounds: [k, 0, 0], nuc_only: false };
-                (gen::records_in_container(p), s).prop_map(move |((recs, cont), s)| Case { recs, cont, k, s, norm, threads, mem: Mem::Max, giant: None, via_cli: true })
+                (gen::records_in_container(p), s).prop_map(move |((recs, cont), s)| Case { recs, cont, k, s, norm, threads, mem: Mem::Max, giant: None, via_cli: true, cohabitant: None })
             })
             .boxed()
     }
@@ -215,7 +231,7 @@ impl Leg for GiantRecs {
                     1 => (prop::sample::select(b"ACGT".to_vec()), ((1usize << 24) + 8)..=((1usize << 24) + 3_000), proptest::collection::vec((any::<u32>(), prop::sample::select(b"ACGTN".to_vec())), 0..=2))
                         .prop_map(|(b, len, edits)| gen::Giant { unit: crate::util::Bytes(vec![b]), len, edits, rand_seed: None }),
                 ];
-                (gen::records(p), giant).prop_map(move |(recs, giant)| Case { recs, cont: Container::plain_fasta(), k, s, norm, threads, mem: Mem::Max, giant: Some(giant), via_cli })
+                (gen::records(p), giant).prop_map(move |(recs, giant)| Case { recs, cont: Container::plain_fasta(), k, s, norm, threads, mem: Mem::Max, giant: Some(giant), via_cli, cohabitant: None })
             })
             .boxed()
     }
@@ -232,7 +248,134 @@ impl Leg for GiantRecs {
     }
 }
 
+/// record *counts* beyond 2^16 and 2^17: a few low-complexity reads repeated tens of thousands of times with a
+/// few stray reads in between (amplicon-like), so that most columns stay untouched for very many records;
+/// per-worker tables recycled between records, 16-bit record stamps and the like
+#[derive(Clone, Debug, Serialize, Deserialize)]
+pub struct ManyCase {
+    pub base: Vec<crate::util::Bytes>,
+    pub n: usize,
+    /// (position as a fraction of n, read)
+    pub strays: Vec<(u32, crate::util::Bytes)>,
+    pub k: usize,
+    pub s: u64,
+    pub norm: bool,
+    pub threads: usize,
+}
+
+pub struct Many;
+impl Leg for Many {
+    type Case = ManyCase;
+    const NAME: &'static str = "many-records";
+    fn strategy(tier: Tier) -> BoxedStrategy<ManyCase> {
+        let lows = || prop_oneof![
+            3 => (prop::sample::select(b"ACGT".to_vec()), 4usize..=30).prop_map(|(b, l)| crate::util::Bytes(vec![b; l])),
+            1 => (proptest::collection::vec(prop::sample::select(b"ACGT".to_vec()), 2..=3), 3usize..=10).prop_map(|(u, r)| crate::util::Bytes(u.repeat(r))),
+        ];
+        let n = prop_oneof![
+            2 => 65_530usize..=65_560,
+            3 => 131_060usize..=131_100,
+            1 => 70_000usize..=tier.pick(150_000, 400_000),
+        ];
+        (proptest::collection::vec(lows(), 1..=3), n, proptest::collection::vec((any::<u32>(), gen::seq(3, 40, true).prop_map(crate::util::Bytes)), 1..=4), 1usize..=3, gen::square_strategy(), any::<bool>(), prop_oneof![3 => Just(1usize), 1 => 2usize..=4])
+            .prop_map(|(base, n, strays, k, s, norm, threads)| ManyCase { base, n, strays, k, s, norm, threads })
+            .boxed()
+    }
+    fn check(c: &ManyCase) -> Verdict {
+        let mut v = Verdict::new();
+        v.class(if c.n > 131_072 { "records>2^17" } else if c.n > 65_536 { "records>2^16" } else { "records<=2^16" });
+        v.nontrivial = true;
+        let mut seqs: Vec<&[u8]> = (0..c.n).map(|i| &c.base[i % c.base.len()].0[..]).collect();
+        for (f, s) in &c.strays {
+            let p = ((*f as u128 * c.n as u128) >> 32) as usize;
+            seqs[p.min(c.n - 1)] = &s.0[..];
+        }
+        let dir = crate::scratch_dir();
+        let input = dir.path().join("many.fa");
+        {
+            let mut text = Vec::with_capacity(c.n * 40);
+            for (i, s) in seqs.iter().enumerate() {
+                text.extend_from_slice(format!(">r{}\n", i).as_bytes());
+                if !s.is_empty() {
+                    text.extend_from_slice(s);
+                    text.push(b'\n');
+                }
+            }
+            std::fs::write(&input, text).unwrap();
+        }
+        let out = dir.path().join("out.kcgr");
+        let r = guarded(|| {
+            let mut cc = OligoCgrComputer::new(io::path_str(&input), io::path_str(&out), c.k, c.s as usize);
+            cc.set_threads(c.threads);
+            cc.set_norm(c.norm);
+            cc.vectorise()
+        });
+        match r {
+            Err(p) => {
+                v.fail(crate::engine::panic_sig(&p), format!("k-mer cgr panicked: {}", p));
+                return v;
+            }
+            Ok(Err(e)) => {
+                v.fail("vectorise-error", format!("k-mer cgr returned Err({})", e));
+                return v;
+            }
+            Ok(Ok(())) => {}
+        }
+        let data = std::fs::read(&out).unwrap_or_default();
+        let rt = rank_table(c.k);
+        let ends: Vec<(f64, f64)> = rt.texts().iter().map(|t| { let p = model::cgr_points(t.as_bytes(), c.s).unwrap(); let l = p.last().unwrap(); (l.0 .0, l.1 .0) }).collect();
+        // identical records must give identical lines: each distinct record's line is verified once against the
+        // model, every other line byte for byte against the verified line of its record
+        let mut verified: std::collections::HashMap<&[u8], &[u8]> = Default::default();
+        let mut lines = data.split(|&b| b == b'\n');
+        for (i, s) in seqs.iter().enumerate() {
+            let line = match lines.next() {
+                Some(l) if !(l.is_empty() && i + 1 > seqs.len()) => l,
+                _ => {
+                    v.fail("row-count", format!("output ends after {} rows, {} records", i, c.n));
+                    return v;
+                }
+            };
+            if let Some(known) = verified.get(s) {
+                if *known != line {
+                    v.fail("kmer-frequency", format!("row {} (record {:?}) is {:?} but an identical earlier record gave {:?}", i, crate::util::Bytes(s.to_vec()), crate::util::trunc(&String::from_utf8_lossy(line), 200), crate::util::trunc(&String::from_utf8_lossy(known), 200)));
+                    return v;
+                }
+                continue;
+            }
+            let text = String::from_utf8_lossy(line).to_string();
+            let tr = match io::parse_tuples(&text, 3) {
+                Ok(t) => t,
+                Err(e) => {
+                    v.fail("malformed-row", format!("row {}: {}", i, e));
+                    return v;
+                }
+            };
+            let (counts, total) = model::oligo_counts(s, &rt);
+            if tr.len() != rt.len() {
+                v.fail("row-width", format!("row {}: {} triples for {} canonical k-mers", i, tr.len(), rt.len()));
+                return v;
+            }
+            for (j, t) in tr.iter().enumerate() {
+                let want = if c.norm { if total == 0 { 0.0 } else { counts[j] as f64 / total as f64 } } else { counts[j] as f64 };
+                if (t[0], t[1]) != ends[j] || (t[2] - want).abs() > 1e-9 {
+                    v.fail(if (t[0], t[1]) != ends[j] { "kmer-position" } else { "kmer-frequency" }, format!("row {} (record {:?}) column {} ({}): ({}, {}, {}) but position ({}, {}) and value {} are expected", i, crate::util::Bytes(s.to_vec()), j, rt.texts()[j], t[0], t[1], t[2], ends[j].0, ends[j].1, want));
+                    return v;
+                }
+            }
+            verified.insert(s, line);
+        }
+        if lines.any(|l| !l.is_empty()) {
+            v.fail("row-count", format!("more than {} rows", c.n));
+        }
+        v
+    }
+}
+
 pub fn run(ctx: &mut Ctx) {
+    let n = ctx.share(ctx.tier.pick(16, 320));
+    ctx.run_leg::<Many>(n, false, 6);
+
     let n = ctx.share(ctx.tier.pick(48, 800));
     ctx.run_leg::<GiantRecs>(n, true, 8);
     let n = ctx.share(ctx.tier.pick(2_400, 40_000));
@@ -246,6 +389,7 @@ pub fn replay(leg: &str, case: &serde_json::Value) -> Option<Result<Verdict, Str
     match leg {
         "runs" => Some(crate::engine::replay_leg::<Runs>(case)),
         "cli" => Some(crate::engine::replay_leg::<Cli>(case)),
+        "many-records" => Some(crate::engine::replay_leg::<Many>(case)),
         "giant-records" => Some(crate::engine::replay_leg::<GiantRecs>(case)),
         _ => None,
     }
